@@ -661,6 +661,16 @@ package hclwrite
 //@ trusted
 //@ assigns nothing
 //@ ensures forall j int :: { ret[j] } 0 <= j && j < len(ret) ==> fresh(ret[j]) && asLexed(ret[j])
+// The conversion from scanner tokens to writer tokens behind lexConfig copies every token: same
+// type, a private copy of the bytes of equal length (that the content is equal is not proved: the
+// engine does not model copy()'s content), and the gap to the previous token
+// as the count of spaces before it - no byte moves between a token and its spacing.
+// verif:func writerTokens
+//@ nosafety
+//@ ensures shape: len(ret) == len(nativeTokens) && (forall j int :: { ret[j] } 0 <= j && j < len(ret) ==> ret[j] != nil && fresh(ret[j]) && ret[j].Type == nativeTokens[j].Type && len(ret[j].Bytes) == len(nativeTokens[j].Bytes))
+//@ ensures spaces: forall j int :: { ret[j] } 0 <= j && j < len(ret) ==> ret[j].SpacesBefore == nativeTokens[j].Range.Start.Byte - ite(j == 0, 0, nativeTokens[j - 1].Range.End.Byte)
+//@ loop 1 invariant fresh(tokBuf) && len(tokBuf) == len(nativeTokens) && rangeindex + 1 <= len(nativeTokens) && (rangeindex + 1 == 0 ==> lastByteOffset == 0) && (rangeindex + 1 > 0 ==> lastByteOffset == nativeTokens[rangeindex].Range.End.Byte) && (forall j int :: { tokBuf[j] } 0 <= j && j <= rangeindex ==> tokBuf[j].Type == nativeTokens[j].Type && len(tokBuf[j].Bytes) == len(nativeTokens[j].Bytes) && fresh(tokBuf[j].Bytes) && tokBuf[j].SpacesBefore == nativeTokens[j].Range.Start.Byte - ite(j == 0, 0, nativeTokens[j - 1].Range.End.Byte))
+//@ loop 2 invariant fresh(ret) && len(ret) == len(tokBuf) && rangeindex + 1 <= len(ret) && (forall j int :: { ret[j] } 0 <= j && j <= rangeindex ==> ret[j] != nil && fresh(ret[j]) && ret[j].Type == nativeTokens[j].Type && len(ret[j].Bytes) == len(nativeTokens[j].Bytes) && ret[j].SpacesBefore == nativeTokens[j].Range.Start.Byte - ite(j == 0, 0, nativeTokens[j - 1].Range.End.Byte))
 // (WriteTo writes to an arbitrary io.Writer: its body is not verified; the clause below defines the
 // ghost flag and assumes WriteTo does not modify the tokens it writes)
 // verif:func (Tokens).WriteTo
